@@ -22,7 +22,7 @@ def canon_on(t):
     x = t
     if x[0] == 'field' and x[2] == 'handle':
         x = x[1]
-    if x[0] == 'call' and x[1] in ('std::cell::RefCell::borrow_mut', 'std::cell::RefCell::borrow') and len(x[2]) == 1:
+    if x[0] == 'call' and x[1] in ('std::cell::RefCell::borrow_mut', 'std::cell::RefCell::borrow', 'std::cell::RefCell::get_mut') and len(x[2]) == 1:
         y = x[2][0]
         if y[0] == 'field' and y[2] == 'inner':
             return S.show(y[1])
